@@ -258,6 +258,9 @@ SKELETONS = {
     'art2': ('article', ['S', 'ENUM', 'SS', 'SET', 'S', 'SS', 'APP', 'S', 'SS']),
     'art3': ('article', ['EQN', 'S', 'EQ', 'EQN']),
     'thm': ('article', ['THMDEF', 'S', 'THM', 'LEM', 'COR', 'S', 'LEM', 'THM', 'COR', 'SS', 'THM', 'SET', 'S', 'THM']),
+    'thm2': ('article', ['THMDEF:subsection', 'S', 'SS', 'THM', 'LEM', 'SS', 'THM', 'COR', 'S', 'SS', 'LEM']),
+    'bookthm': ('book', ['THMDEF:section', 'C', 'S', 'THM', 'LEM', 'COR', 'S', 'THM', 'C', 'S', 'LEM']),
+    'bookthm2': ('book', ['THMDEF:chapter', 'C', 'THM', 'S', 'LEM', 'C', 'THM', 'COR']),
     'book1': ('book', ['C', 'S', 'EQ', 'SS', 'C', 'EQ', 'S', 'FIG', 'S']),
     'book2': ('book', ['C', 'S', 'SET', 'S', 'APP', 'C', 'S']),
 }
@@ -273,7 +276,12 @@ def h_doc(e, skel, depth):
     cnt = {'chapter': 0, 'section': 0, 'subsection': 0, 'subsubsection': 0, 'equation': 0, 'figure': 0, 'thm': 0, 'cor': 0}
     appendix = False
     expect = []          # (nodeName, expected ref text or None)
-    below = {'chapter': ['section', 'equation', 'figure'], 'section': ['subsection'] + (['thm'] if 'THMDEF' in items else []), 'subsection': ['subsubsection'], 'subsubsection': []}
+    below = {'chapter': ['section', 'equation', 'figure'], 'section': ['subsection'], 'subsection': ['subsubsection'], 'subsubsection': []}
+    within = [None]
+    for it in items:
+        if it.startswith('THMDEF'):
+            within[0] = it.partition(':')[2] or 'section'
+            below[within[0]] = below[within[0]] + ['thm']
 
     def reset_below(name):
         for ch in below.get(name, []):
@@ -304,13 +312,13 @@ def h_doc(e, skel, depth):
                 e.assume(e.one_of(star, '* '))
             k += 1
             src += ['\\%s' % CMD[it], star, '{T}x ']
-            if eq(star, '*'):
-                expect.append((CMD[it], None))
+            if eq(star, '*') or LEVELS[it] > depth:
+                expect.append((CMD[it], None))             # LaTeX: starred units and units deeper than the numbering depth leave their counter alone
             else:
                 cnt[CMD[it]] = cnt[CMD[it]] + 1
                 reset_below(CMD[it])
                 try:
-                    expect.append((CMD[it], the(CMD[it]) if LEVELS[it] <= depth else None))
+                    expect.append((CMD[it], the(CMD[it])))
                 except _OutOfRange:
                     expect.append((CMD[it], 'skip'))
         elif it == 'EQ':
@@ -320,13 +328,13 @@ def h_doc(e, skel, depth):
                 expect.append(('equation', the('equation')))
             except _OutOfRange:
                 expect.append(('equation', 'skip'))
-        elif it == 'THMDEF':
-            # theorem within section, lemma sharing the theorem counter, corollary with its own counter
-            src[0] = src[0].replace('\\begin{document}', '\\newtheorem{thm}{Theorem}[section]\\newtheorem{lem}[thm]{Lemma}\\newtheorem{cor}{Corollary}\\begin{document}')
+        elif it.startswith('THMDEF'):
+            # theorem numbered within a sectioning unit, lemma sharing the theorem counter, corollary with its own counter
+            src[0] = src[0].replace('\\begin{document}', '\\newtheorem{thm}{Theorem}[%s]\\newtheorem{lem}[thm]{Lemma}\\newtheorem{cor}{Corollary}\\begin{document}' % within[0])
         elif it in ('THM', 'LEM'):
             src.append('\\begin{%s}t\\end{%s}' % (it.lower(), it.lower()))
             cnt['thm'] = cnt['thm'] + 1
-            expect.append(('thmenv', the('section') + ['.'] + _num(cnt['thm'])))
+            expect.append(('thmenv', the(within[0]) + ['.'] + _num(cnt['thm'])))
         elif it == 'COR':
             src.append('\\begin{cor}t\\end{cor}')
             cnt['cor'] = cnt['cor'] + 1
@@ -448,7 +456,7 @@ def jobs(tier, seed):
         for g in graphs(n):
             nops = 3 if (q or n == 4) else 4
             J.append(dict(harness='h_reset', params=dict(n=n, parents=list(g), nops=nops), label='reset n=%d %s ops=%d' % (n, g, nops), no_twin=n > 2))
-    sk = ['art1', 'art2', 'art3', 'thm', 'book1'] if q else list(SKELETONS)
+    sk = ['art1', 'art2', 'art3', 'thm', 'thm2', 'bookthm', 'bookthm2', 'book1'] if q else list(SKELETONS)
     for s in sk:
         for depth in ((0, 1, 2, 3) if q else (-1, 0, 1, 2, 3, 4)):
             J.append(dict(harness='h_doc', params=dict(skel=s, depth=depth), label='doc %s depth=%d' % (s, depth), split=3, no_twin=depth != 2))
